@@ -166,9 +166,30 @@ Yen ==
                    /\ Ev.c # 99 => \A i \in 1 .. n : wt[i] <= e[2] + Ev.c
     /\ UNCHANGED <<gn, gIn, gOut, gTW>>
 
+(* D* Lite (graph/path/dynamic): the recorder logs the planner's world as a "graph" event after    *)
+(* every UpdateWorld, the answer of Path() and every Step().  After every action Path() must be a    *)
+(* real walk here -> goal in the current world of the true weight; Step returns false exactly at    *)
+(* the goal or when the goal is unreachable, and otherwise moves along an optimal edge.             *)
+DPath ==
+    /\ Ev.op = "dpath"
+    /\ ~Ev.panic
+    /\ Ev.w = gTW[Ev.here][Ev.goal]
+    /\ PathOK(Ev.here, Ev.goal, Ev.p, gTW[Ev.here][Ev.goal])
+    /\ UNCHANGED <<gn, gIn, gOut, gTW>>
+
+DStep ==
+    /\ Ev.op = "dstep"
+    /\ ~Ev.panic
+    /\ LET e == gTW[Ev.from][Ev.goal]
+       IN /\ Ev.ret = (Ev.from # Ev.goal /\ IsFin(e))
+          /\ Ev.ret => /\ HasEdge(Ev.from, Ev.here) /\ IsFin(gTW[Ev.here][Ev.goal])
+                        /\ W(Ev.from, Ev.here) + gTW[Ev.here][Ev.goal][2] = e[2]
+          /\ ~Ev.ret => Ev.here = Ev.from
+    /\ UNCHANGED <<gn, gIn, gOut, gTW>>
+
 TraceInit == l = 1 /\ gn = 0 /\ gIn = <<>> /\ gOut = <<>> /\ gTW = <<>>
 TraceNext == /\ l <= Len(TraceLog)
-             /\ (Graph \/ Sssp \/ Pt \/ Apsp \/ All \/ Yen)
+             /\ (Graph \/ Sssp \/ Pt \/ Apsp \/ All \/ Yen \/ DPath \/ DStep)
              /\ l' = l + 1
 TraceSpec == TraceInit /\ [][TraceNext]_tvars
 
